@@ -375,6 +375,11 @@ class Ctx:
         (VERIF / 'evidence' / f'{self.prop}.json').write_text(json.dumps(ev, indent=1, default=str) + '\n')
         self.log(f"obligations {self.obligations} discharged {self.discharged}; evaluations {cov['evaluations']}; "
                  f"violations {len(self.violations)}; known {self.known_printed}")
+        # generated case files and coqc output are large (1-2 GB per run): drop them unless asked to keep;
+        # replay files live in build/replay and do not depend on the run directory
+        if os.environ.get('VERIF_KEEP_RUN') != '1' and not self.violations:
+            import shutil
+            shutil.rmtree(self.rundir, ignore_errors=True)
         return 1 if self.violations else 0
 
 
